@@ -117,7 +117,9 @@ type propMeta struct {
 	NotProof string // explanation when level is "other"
 }
 
-var propLevels = map[string]propMeta{}
+var propLevels = map[string]propMeta{
+	"C08": {Level: "other", NotProof: "the obligations prove that every blocking library call reached from the entry points is given a finite bound (bounded context, timeout, or read deadline); they do not prove that the run returns within the arithmetic bound of the statement (liveness, scheduler and kernel behaviour are outside what a pre/postcondition can decide)"},
+}
 
 func cmdCheck(args []string) int {
 	if len(args) < 1 {
